@@ -201,9 +201,13 @@ def canon(t, smap):
     if k == "call" and t[1] in ("std::convert::From::from", "std::convert::Into::into") and len(t[2]) == 1 and len(t) > 3 and isinstance(t[3], dict) and \
             (t[3].get("ty") or "") in ("u8", "u16", "u32", "u64", "usize", "i8", "i16", "i32", "i64", "isize"):
         return "(%s as %s)" % (c(t[2][0]), t[3]["ty"])      # usize::from(x) is x as usize
+    if k == "call" and t[1] in VIEW_CALLS and len(t[2]) == 1:
+        return c(t[2][0])           # a view of the same value: buf.as_mut_slice() is &mut buf, bytes.as_ref() is &bytes
+    if k == "call" and t[1] == "std::convert::Into::into" and len(t[2]) == 1:
+        return "std::convert::From::from(%s)" % c(t[2][0])      # x.into() is T::from(x)
     if k == "call":
         if t[1] in ("<for>", "<loop>") and len(t) > 3 and isinstance(t[3], dict):
-            inner = sorted(canon_path(p, smap) for p in t[3].get("paths", []))
+            inner = sorted(canon_path(p, smap, in_loop=True) for p in t[3].get("paths", []))
             return "%s(%s){%s}" % (t[1], ", ".join(c(a) for a in t[2]), " || ".join(inner))
         return "%s(%s)" % (rename(t[1] or "?", smap), ", ".join(c(a) for a in t[2]))
     if k == "ctor":
@@ -235,6 +239,11 @@ def canon(t, smap):
     return "<%s>" % k
 
 
+VIEW_CALLS = {"std::vec::Vec::<T, A>::as_mut_slice", "std::vec::Vec::<T, A>::as_slice", "std::convert::AsRef::as_ref", "std::convert::AsMut::as_mut",
+              "std::ops::Deref::deref", "std::ops::DerefMut::deref_mut", "std::borrow::Borrow::borrow", "std::borrow::BorrowMut::borrow_mut",
+              "std::string::String::as_str", "std::string::String::as_bytes", "core::str::<impl str>::as_bytes"}
+
+
 def rename(s, smap):
     for a, b in smap:
         s = s.replace(a, b)
@@ -243,7 +252,7 @@ def rename(s, smap):
 
 def is_log_call(t):
     # log statements, and pure Option / Result / conversion combinators (their effect is in the conditions and the returned term)
-    return isinstance(t, tuple) and t[0] == "call" and (str(t[1]).startswith(("log::", "std::result::Result::", "std::option::Option::", "std::convert::", "<enter>", "<index>", "<arith>")) or
+    return isinstance(t, tuple) and t[0] == "call" and (t[1] in VIEW_CALLS or str(t[1]).startswith(("log::", "std::result::Result::", "std::option::Option::", "std::convert::", "<enter>", "<index>", "<arith>")) or
                                                         (str(t[1]).startswith("macro::") and str(t[1]).split("::")[-1] in LOG_MACROS))
 
 
@@ -289,12 +298,14 @@ def result_match_as_try(p):
         e = ret[2][0]
         if e[0] == "proj" and str(e[2]).startswith("Err.") and any(e[1] is x or e[1] == x for x in subst):
             ret, kind = ("err?", e[1]), "try"
+        elif e[0] == "call" and e[1] == "<from-err>" and e[2]:
+            ret, kind = ("err?", e[2][0]), "try"      # an inlined helper's `?` exit handed on as the caller's own result
     q = type("P", (), {})()
     q.conds, q.trace, q.ret, q.kind = conds, [rw(t) if isinstance(t, tuple) else t for t in p.trace], ret, kind
     return q
 
 
-def canon_path(p, smap):
+def canon_path(p, smap, in_loop=False):
     p = result_match_as_try(p)
     conds = []
     for cnd in p.conds:
@@ -312,17 +323,19 @@ def canon_path(p, smap):
     # the order of effects: each call with the number of conditions already decided when it runs
     trace = ["%s@%s" % (canon(t, smap), t[4] if len(t) > 4 else "") for t in p.trace if isinstance(t, tuple) and t[0] == "call" and not is_log_call(t)]
     kind = "fall" if p.kind == "return" else p.kind         # `return x` at the end and the tail expression `x` are the same exit
-    return "%s [%s] {%s} => %s" % (kind, " && ".join(conds), "; ".join(trace), canon(p.ret, smap))
+    # the value an iteration of a loop body falls off with is discarded: `f()?` as the arm's value and `f()?;` as a statement are the same step
+    ret = "()" if (in_loop and kind in ("fall", "continue")) else canon(p.ret, smap)
+    return "%s [%s] {%s} => %s" % (kind, " && ".join(conds), "; ".join(trace), ret)
 
 
-def same_paths(ab, sb, smap):
+def same_paths(ab, sb, smap, inline=None):
     """Second judgement for twins whose trees differ: equal sets of path summaries (conditions in order, calls in order with the
     conditions in force, returned term) mean the two bodies make the same calls with the same arguments under the same tests -
     a one-sided rewrite that only introduces a temporary, reorders declarations or reshapes control flow is not a difference."""
     from ..symx import TooManyPaths, paths_of
     try:
-        pa = sorted(canon_path(p, smap) for p in paths_of(ab))
-        ps = sorted(canon_path(p, []) for p in paths_of(sb))
+        pa = sorted(canon_path(p, smap) for p in paths_of(ab, inline=inline))
+        ps = sorted(canon_path(p, []) for p in paths_of(sb, inline=inline))
     except TooManyPaths:
         return False, "too many paths"
     if pa == ps:
@@ -385,20 +398,26 @@ def check(run, views, tier):
                 for a, b in smap:
                     sib = sib.replace(a, b)
                 pairs.append((path, sib))
-        # every blocking reader/parser fn must have an async twin too
+        # every blocking reader/parser fn of the API must have an async twin too. Private helpers need not be paired one to one: when the
+        # trees of two twins differ their path summaries are compared with every private helper of the two modules inlined, so a helper
+        # that exists on one side only (extracted there, or inlined away there) is judged through its public callers.
+        from ..symx import known_functions
+        private = {q: b for q, b in F.hir.items() if "::tests::" not in q and b["kind"] in ("Fn", "AssocFn") and b.get("vis") != "Public" and
+                   any(m in q for m in T["sync_markers"] + T["async_markers"])}
         async_sibs = {s for _, s in pairs}
         for path, body in F.hir.items():
             if "::tests::" in path or body["kind"] not in ("Fn", "AssocFn"):
                 continue
-            from ..symx import known_functions
-            if path not in known_functions():
-                continue        # a helper introduced later: it is inlined into its callers, which are compared
+            if path not in known_functions() or path in private:
+                continue        # a helper: it is inlined into its callers, which are compared
             if any(m in path for m in T["sync_markers"]) and not any(a in path for a in T["async_markers"]):
                 run.ob("R-TWIN", "blocking fn %s has an async twin" % path, path in async_sibs, "no async sibling: the two front ends differ in API", site(body),
                        key="R-TWIN|%s|no-async-twin" % path)
         n_pairs = 0
         for apath, spath in pairs:
             ab, sb = F.body(apath), F.body(spath)
+            if sb is None and apath in private:
+                continue        # judged through its callers (see above)
             if sb is None:
                 run.ob("R-TWIN", "async fn %s has a blocking twin" % apath, False, "no blocking sibling %s" % spath, site(ab), key="R-TWIN|%s|no-sync-twin" % apath)
                 continue
@@ -409,7 +428,7 @@ def check(run, views, tier):
             d = first_diff(na, ns)
             if d:
                 # trees differ: are the path summaries the same (a one-sided, behaviour-preserving rewrite)?
-                eq, why = same_paths(ab, sb, smap)
+                eq, why = same_paths(ab, sb, smap, inline=private)
                 if eq:
                     d = None
                     detail = "trees differ, path summaries equal (%s)" % why
